@@ -29,6 +29,10 @@ if TYPE_CHECKING:
     from explorerscript.ssb_converting.ssb_decompiler import ExplorerScriptSsbDecompiler
 
 
+# Deepest nesting of blocks the decompilers will write.
+MAX_BLOCK_NESTING = 100
+
+
 class Blk:
     """Utility context manager for managing indents."""
 
@@ -37,6 +41,10 @@ class Blk:
         self.braces = braces
 
     def __enter__(self) -> None:
+        if self.reader.indent >= MAX_BLOCK_NESTING:
+            # The write handlers recurse without end on some loops they do not recognize. Give up early,
+            # the Python recursion limit is only hit after minutes of ever slower string building.
+            raise RecursionError("Blocks are nested too deeply, the control flow was not structured correctly.")
         self.reader.indent += 1
         if self.braces:
             self.reader.write_stmnt(" {", False)
